@@ -421,7 +421,7 @@ func Run(run *core.Run) core.Coverage {
 		cases = sel
 		run.Notes = append(run.Notes, "c08net: restricted by VERIF_C08NET_ONLY="+f)
 	}
-	budget := run.Pick(70, 720)
+	budget := run.Pick(300, 720) // quick: a safety net
 	if v, err := strconv.Atoi(os.Getenv("VERIF_C08NET_BUDGET")); err == nil && v > 0 {
 		budget = v // seconds; for measurements on an overloaded machine
 	}
